@@ -6,6 +6,7 @@ case = {alg: 'lf' | 'ri' (injected generator iter(stream)) | 'rb' (built-in rand
         stream: [int, ...], ctx: {a, b, cpb, ex}}            ma = [[policy_hex, [[name_hex, qty], ...]], ...]
 result = {res: ['ok', [pool index, ...], [coin, ma]] | ['err', kind],
           fee: the number max_tx_fee(context) (0 when fee is off), mc: what min_lovelace_post_alonzo returned (or None),
+          topup: the change of the first phase was below mc,
           pool_after: [[coin, ma], ...], same_objs: the list still holds the very same UTxO objects with the same inputs}
 """
 from _pre import *
@@ -103,12 +104,13 @@ def handler(case, payload):
     before_inputs = [(u.input.transaction_id.payload, u.input.index, bytes(u.output.address)) for u in pool]
     # the numbers the selectors obtain from the context, computed here by the real functions
     fee = U.max_tx_fee(ctx) if case['fee'] else 0
-    recorded = []
+    recorded, below = [], []
     real_min = U.min_lovelace_post_alonzo
 
     def min_wrapper(output, context):
         r = real_min(output, context)
         recorded.append(r)
+        below.append(output.amount.coin < r)          # the selector will try a min-change top-up
         return r
 
     saved = (CS.min_lovelace_post_alonzo, CS.random)
@@ -135,7 +137,7 @@ def handler(case, payload):
         CS.min_lovelace_post_alonzo, CS.random = saved
     same_objs = (len(pool) == len(before_objs) and all(a is b for a, b in zip(pool, before_objs))
                  and before_inputs == [(u.input.transaction_id.payload, u.input.index, bytes(u.output.address)) for u in pool])
-    return {'res': res, 'fee': fee, 'mc': recorded[0] if recorded else None, 'mc_calls': len(recorded),
+    return {'res': res, 'fee': fee, 'mc': recorded[0] if recorded else None, 'mc_calls': len(recorded), 'topup': bool(below and below[0]),
             'pool_after': [dump_val(u.output.amount) for u in pool], 'same_objs': same_objs}
 
 
